@@ -29,7 +29,7 @@ func c03Reps(k spec.Kind) []any {
 	t := gen.BaseTime
 	switch k {
 	case spec.String:
-		return []any{"plain", "  padded  ", "é世", 42, int64(-7), int32(3), 2.5, 1e21, 0.00001, 1e20, float32(1.5), true, false, []any{1, "a"}, map[string]any{"k": 1}, t, uint8(200), 'x', []string{"a", "b"}, struct{ A int }{5}, complex(1, 2)}
+		return []any{"plain", "  padded  ", "é世", 42, int64(-7), int32(3), 2.5, 1e21, 0.00001, 1e20, float32(1.5), float32(0.1), float32(16777217), float32(1e-7), float32(3.4e38), 1e-5, 123456789.125, true, false, []any{1, "a"}, map[string]any{"k": 1}, t, uint8(200), 'x', []string{"a", "b"}, struct{ A int }{5}, complex(1, 2)}
 	case spec.Int, spec.Int32, spec.Int64:
 		return []any{12, int32(13), int64(14), "15", "-16", "+17", 6.29, -6.99, 0.4, true, false, 0, "0", 1e6, float64(1 << 40), "007"}
 	case spec.Float32, spec.Float64:
